@@ -14,6 +14,41 @@ DefFails(e) ==
   IF want = "" THEN (IF e.out = "ok" THEN {} ELSE {"definition-refused"})
   ELSE IF e.out = want THEN {} ELSE IF e.out = "ok" THEN {"definition-error-not-raised"} ELSE {"definition-error-class"}
 
+(* Substituting a type variable rebuilds the annotation.  Where the rebuilt type is a typing.Union one of    *)
+(* whose members CONTAINS the variable (Union[int, List[T]], Optional[Annotated[T, c]]) the new object is     *)
+(* made by typing's cached subscription, which compares arguments with == (Union[A, B] == Union[B, A]): the  *)
+(* member order of a union passed as the argument can then be the one of an earlier, equal subscription.     *)
+(* Failures on that path are named apart (known finding F36), so that everything else stays judged.          *)
+RECURSIVE HasRebuiltUnion(_)
+HasRebuiltUnion(T) ==
+  CASE T.k = "union" -> \/ \E j \in DOMAIN T.alts : T.alts[j].k # "tv" /\ VarsOf(T.alts[j]) # <<>>
+                        \/ \E j \in DOMAIN T.alts : HasRebuiltUnion(T.alts[j])
+    [] T.k = "list" -> HasRebuiltUnion(T.e)
+    [] T.k = "ann"  -> HasRebuiltUnion(T.t)
+    [] OTHER -> FALSE
+RECURSIVE HasUnion(_), ChainSubstitutesUnion(_, _)
+HasUnion(T) == CASE T.k = "union" -> TRUE [] T.k = "list" -> HasUnion(T.e) [] T.k = "ann" -> HasUnion(T.t) [] OTHER -> FALSE
+ChainSubstitutesUnion(prog, i) ==      \* a base of class i (at any level) is subscripted with a type that has a union in it
+  IF i = 0 THEN FALSE
+  ELSE (\E j \in DOMAIN prog[i].bargs : HasUnion(prog[i].bargs[j])) \/ ChainSubstitutesUnion(prog, prog[i].base)
+(* some class of the chain declares a field whose type is rebuilt that way: a union member that contains a   *)
+(* variable, or a union member that IS a variable while a base is subscripted with a wrapped type (List[V])  *)
+RECURSIVE HasVarAlt(_), ChainRebuildsUnion(_, _, _), ChainWrapsArg(_, _)
+HasVarAlt(T) == CASE T.k = "union" -> \E j \in DOMAIN T.alts : T.alts[j].k = "tv" \/ HasVarAlt(T.alts[j])
+                  [] T.k = "list" -> HasVarAlt(T.e) [] T.k = "ann" -> HasVarAlt(T.t) [] OTHER -> FALSE
+ChainWrapsArg(prog, i) ==
+  IF i = 0 THEN FALSE
+  ELSE (\E j \in DOMAIN prog[i].bargs : prog[i].bargs[j].k \in {"list", "ann"}) \/ ChainWrapsArg(prog, prog[i].base)
+ChainRebuildsUnion(prog, i, top) ==
+  IF i = 0 THEN FALSE
+  ELSE \/ \E j \in DOMAIN prog[i].own : HasRebuiltUnion(prog[i].own[j].t)
+       \/ \E j \in DOMAIN prog[i].own : HasVarAlt(prog[i].own[j].t) /\ ChainWrapsArg(prog, top)
+       \/ ChainRebuildsUnion(prog, prog[i].base, top)
+ViaTypingUnion(e) ==
+  /\ (\E j \in DOMAIN e.args : HasUnion(e.args[j])) \/ ChainSubstitutesUnion(e.prog, e.i)
+  /\ ChainRebuildsUnion(e.prog, e.i, e.i)
+Named(e, c) == IF ViaTypingUnion(e) THEN c \o "-via-rebuilt-typing-union" ELSE c
+
 SigFails(e) ==
   IF e.args # <<>> /\ Len(e.args) # Len(Params(e.prog, e.i)) THEN {"type-parameters"} ELSE
   LET want == Signature(e.prog, e.i, e.args)
@@ -21,7 +56,7 @@ SigFails(e) ==
   (IF [j \in DOMAIN e.sig |-> e.sig[j].n] = [j \in DOMAIN want |-> want[j].n] THEN {} ELSE {"field-order"})
   \cup (IF Len(e.sig) = Len(want) /\ \A j \in DOMAIN want : e.sig[j].n = want[j].n => e.sig[j].kw = want[j].kw THEN {} ELSE {"keyword-only-placement"})
   \cup (IF Len(e.sig) = Len(want) /\ \A j \in DOMAIN want : e.sig[j].n = want[j].n => e.sig[j].hasdef = want[j].hasdef THEN {} ELSE {"signature-defaults"})
-  \cup (IF Len(e.sig) = Len(want) /\ \A j \in DOMAIN want : e.sig[j].n = want[j].n => NormT(e.sig[j].t) = NormT(want[j].t) THEN {} ELSE {"substituted-annotation"})
+  \cup (IF Len(e.sig) = Len(want) /\ \A j \in DOMAIN want : e.sig[j].n = want[j].n => NormT(e.sig[j].t) = NormT(want[j].t) THEN {} ELSE {Named(e, "substituted-annotation")})
   \cup (IF e.reprorder = [j \in DOMAIN want |-> want[j].n] THEN {} ELSE {"repr-order"})
   \cup (IF e.frozen = o.frozen THEN {} ELSE {"frozen-not-inherited"})
   \cup (IF e.params = (IF e.args = <<>> THEN Params(e.prog, e.i) ELSE VarsOfSeq(e.args)) THEN {} ELSE {"type-parameters"})
@@ -30,9 +65,9 @@ FromFails(e) ==
   IF e.args # <<>> /\ Len(e.args) # Len(Params(e.prog, e.i)) THEN {} ELSE
   LET T == EffCls(e.prog, e.i, e.args)
       r == Verdict(T, e.val) IN
-  IF e.out.k = "reject" THEN (IF r = "A" THEN {"must-accept"} ELSE {})
-  ELSE IF e.out.k = "ok" THEN (IF r = "R" THEN {"must-reject"}
-                               ELSE IF r = "A" /\ Dec(e.out.x) # Img(T, e.val) THEN {"image"} ELSE {})
+  IF e.out.k = "reject" THEN (IF r = "A" THEN {Named(e, "must-accept")} ELSE {})
+  ELSE IF e.out.k = "ok" THEN (IF r = "R" THEN {Named(e, "must-reject")}
+                               ELSE IF r = "A" /\ Dec(e.out.x) # Img(T, e.val) THEN {Named(e, "image")} ELSE {})
   ELSE {"foreign-exception"}
 
 SubscriptFails(e) ==     \* Cls[args] with the right number of arguments must succeed
